@@ -206,7 +206,9 @@ func (p *Planner) plan(operation, operationName string, variables []byte) (*Tree
 		astnormalization.WithPrevalidationRules(
 			astvalidation.DeferStreamOnValidOperations(),
 			astvalidation.DeferStreamHaveUniqueLabels(),
+			astvalidation.DirectivesAreDefined(),
 			astvalidation.DirectivesAreInValidLocations(),
+			astvalidation.DirectivesAreUniquePerLocation(),
 			astvalidation.StreamAppliedToListFieldsOnly()))
 	if err != nil {
 		return nil, nil, nil, err
